@@ -591,6 +591,8 @@ def _run_programs(ctx, res, group, models, nprog, seed_tag):
     for model in models[:1]:
         death_checks(ctx, res, group, model)
         control_checks(ctx, res, group, model)
+        if model == "thread":
+            terminate_checks(ctx, res, model)
 
 
 def d11_present(group):
@@ -683,6 +685,46 @@ def control_checks(ctx, res, group, model):
         ok = repr(e)
     if ok != 42:
         res.violations.append(dict(case=dict(kind="control", model=model), what="via master unusable after control requests: %r" % (ok,)))
+
+
+def terminate_checks(ctx, res, model):
+    """`Group.terminate(timeout)` with a busy worker: the kill request reaches the process on a via gateway exactly as on a
+    direct popen gateway (same outcome: terminate returns in about the time-out, the worker process is gone)"""
+    execnet = ctx.execnet
+    obs = {}
+    for name in ("popen", "via"):
+        case = dict(kind="terminate", transport=name, model=model)
+        res.count(("terminate", name, model))
+        group = execnet.Group()
+        try:
+            if name == "via":
+                group.makegateway("popen//id=tmaster")
+                gw = group.makegateway("popen//via=tmaster//execmodel=%s" % model)
+            else:
+                gw = group.makegateway("popen//execmodel=%s" % model)
+            ch = gw.remote_exec("import os, time\nchannel.send(os.getpid())\ntime.sleep(600)\n")
+            pid = ch.receive(TMO)
+            t0 = time.time()
+            st, _ = _with_timeout(lambda: group.terminate(timeout=1.0), tmo=20.0)
+            elapsed = time.time() - t0
+            t1 = time.time()
+            while _pid_alive(pid) and time.time() - t1 < 1.0:
+                time.sleep(0.02)
+            obs[name] = (st, elapsed < 3.5, not _pid_alive(pid))
+            if obs[name] != ("ok", True, True):
+                res.violations.append(dict(case=case, what="terminate(timeout=1) with a busy worker on the %s gateway: %s after %.2f s, worker process %d %s"
+                                           % (name, st, elapsed, pid, "still alive" if _pid_alive(pid) else "gone")))
+            else:
+                res.traces += 1
+        except Exception as e:  # noqa: BLE001
+            res.violations.append(dict(case=case, what="terminate check failed: %r" % (e,)))
+        finally:
+            try:
+                _kill_children([g for g in group])
+            except Exception:  # noqa: BLE001
+                pass
+    if len(obs) == 2 and obs["popen"] != obs["via"]:
+        res.violations.append(dict(case=dict(kind="terminate", model=model), what="terminate of a busy worker: via %r, popen %r" % (obs["via"], obs["popen"])))
 
 
 def death_checks(ctx, res, group, model):
